@@ -90,6 +90,11 @@ func (P *Program) findIntrinsic(fn *ssa.Function) intrinsicFn {
 				}
 				fname := P.fset.Position(cf.Pos()).Filename
 				base := filepath.Base(fname)
+				if strings.HasPrefix(cf.Synthetic, "thunk") {
+					// a method expression (T).m used as a function value: the call site is wherever the
+					// value is called (a harness), not the method's own file
+					base, fname = "", ""
+				}
 				for _, e := range entries {
 					if cf == e.fn {
 						stub = nil // the stub itself may call the function it replaces
